@@ -460,3 +460,27 @@ Fixpoint wf_chain_from (height : Z) (c : chain) : bool :=
   end.
 
 Definition wf_chain (c : chain) : bool := wf_chain_from 1 c.
+
+(* consensus receipts carry the running sum of the gas charged to the block: an executed transaction its gas used,
+   an admitted transaction that failed afterwards its whole gas limit *)
+Fixpoint cum_ok (sum : Z) (l : list txv) : bool :=
+  match l with
+  | [] => true
+  | t :: r =>
+      match first_rc (tv_events t) with
+      | Some rc => (rc_cum rc =? sum + rc_gas rc) && cum_ok (sum + rc_gas rc) r
+      | None => cum_ok (sum + tv_gas t) r
+      end
+  end.
+
+Definition cum_block_ok (b : block) : bool := cum_ok 0 (block_eth_txs b).
+Definition cum_chain_ok (c : chain) : bool := forallb cum_block_ok c.
+
+Fixpoint nodupb (l : list Z) : bool :=
+  match l with
+  | [] => true
+  | x :: r => negb (existsb (Z.eqb x) r) && nodupb r
+  end.
+
+(* what the theorems of Properties/C14.v assume about a chain; evaluated on every chain the harness produces *)
+Definition chain_hyps (c : chain) : bool := wf_chain c && cum_chain_ok c && nodupb (chain_hashes c).
